@@ -11,7 +11,7 @@ import numpy as np
 from vlib.core import HarnessError, Violation, lib_call
 from vlib.lattice import RowCheck
 from vlib.runs import core_of, make_sampler, patched_parallel_mcmc, quiet, wrap_method
-from vlib.targets import Target, simple_target_spec
+from vlib.targets import BLOB_MODES, Target, simple_target_spec
 
 PID = "C07"
 LEVEL = "exploration"
@@ -51,10 +51,8 @@ def check_records(t, u, x, logl, blobs, where, need_u=True, llf=None):
             raise Violation(f"{where}: particle {i}: stored logl={logl[i]!r} but the likelihood at its x is {li!r}",
                             sig={"kind": "logl-mismatch", "where": where.split(':')[0]})
         if blobs is not None:
-            bi = np.array(t.blob_vec(x[i]))
-            got = np.asarray(blobs[i], dtype=float).ravel()
-            if got.shape != bi.shape or not np.array_equal(got, bi):
-                raise Violation(f"{where}: particle {i}: stored blob={blobs[i]!r} but blob(x)={bi.tolist()!r}",
+            if not t.blob_match(x[i], blobs[i]):
+                raise Violation(f"{where}: particle {i}: stored blob={blobs[i]!r} but blob(x)={t.blob_vec(x[i])!r}",
                                 sig={"kind": "blob-mismatch", "where": where.split(':')[0]})
     return n
 
@@ -107,7 +105,7 @@ class Coherence(RowCheck):
         core = core_of(s)
         st = core.state
         stats = {"mixed": 0, "mut_calls": 0, "records": 0, "neginf_replaced": 0}
-        blobs_on = row["mode"] in ("blobs", "blobs2")
+        blobs_on = row["mode"] in BLOB_MODES
 
         def cur(where):
             c = st.get_current()
@@ -166,7 +164,7 @@ def exec_full(case):
     s, t = cfggen.build(case)
     core = core_of(s)
     st = core.state
-    blobs_on = case["mode"] in ("blobs", "blobs2")
+    blobs_on = case["mode"] in BLOB_MODES
     llf = lambda xr: cfggen.ll_of(case, t, xr)  # noqa
     stats = {"mixed": 0, "records": 0}
 
